@@ -39,8 +39,11 @@ pub fn probe_of(out: &Outcome, id: i32) -> Probe {
     }
 }
 
-fn only_marker(text: &str, doc: usize) -> Option<u32> {
-    markers_in(text).into_iter().find(|(d, _)| *d == doc).map(|(_, n)| n)
+/// The version marker a text carries. Markers are `(document the text was written for, n)`; a
+/// file renamed on disk keeps the marker of the document it was written for, so markers are
+/// compared as pairs, never filtered by the document that currently holds the text.
+fn only_marker(text: &str) -> Option<(usize, u32)> {
+    markers_in(text).into_iter().next()
 }
 
 /// True when any probe (document trees, fresh-document hover) went unanswered: the server
@@ -76,12 +79,12 @@ pub fn content_oracle(prop: &str, spec: &RunSpec, out: &Outcome) -> Vec<Violatio
         let disk = &out.disk_at_probe[*d];
         match (editor, disk) {
             (Some(text), _) => {
-                let want = only_marker(text, *d);
+                let want = only_marker(text);
                 match &p {
                     Probe::Present(ms) => {
-                        let got: Vec<u32> = ms.iter().filter(|(dd, _)| dd == d).map(|(_, n)| *n).collect();
+                        let got: Vec<(usize, u32)> = ms.clone();
                         if got.len() != 1 || Some(got[0]) != want {
-                            let kind = if got.len() == 1 && Some(got[0]) < want { "older-text" } else { "other-text" };
+                            let kind = if got.len() == 1 && want.map(|w| w.0 == got[0].0 && got[0].1 < w.1).unwrap_or(false) { "older-text" } else { "other-text" };
                             vs.push(v(
                                 format!("{prop}:open-doc-shows-{kind}"),
                                 format!("doc {d} ({}) open with marker {want:?}, analysis shows {got:?}", ds.rel),
@@ -104,7 +107,7 @@ pub fn content_oracle(prop: &str, spec: &RunSpec, out: &Outcome) -> Vec<Violatio
                 }
             }
             (None, Some(disk_text)) => {
-                let want = only_marker(disk_text, *d);
+                let want = only_marker(disk_text);
                 // The ordinary didClose path keeps the editor text of a dirty document; a reload
                 // re-reads every closed file from disk. The discarded editor text is therefore
                 // tolerated unless a reload certainly *started after the close was handled*: a
@@ -131,11 +134,11 @@ pub fn content_oracle(prop: &str, spec: &RunSpec, out: &Outcome) -> Vec<Violatio
                 let dirty = if reload_after_close == Some(true) || reconciled {
                     None
                 } else {
-                    out.dirty_closed[*d].as_deref().and_then(|t| only_marker(t, *d))
+                    out.dirty_closed[*d].as_deref().and_then(only_marker)
                 };
                 match &p {
                     Probe::Present(ms) => {
-                        let got: Vec<u32> = ms.iter().filter(|(dd, _)| dd == d).map(|(_, n)| *n).collect();
+                        let got: Vec<(usize, u32)> = ms.clone();
                         let ok = got.len() == 1 && (Some(got[0]) == want || (dirty.is_some() && Some(got[0]) == dirty));
                         if !ok {
                             vs.push(v(
@@ -163,10 +166,10 @@ pub fn content_oracle(prop: &str, spec: &RunSpec, out: &Outcome) -> Vec<Violatio
         if !ds.in_workspace {
             continue;
         }
-        let want = out.disk[*d].as_deref().and_then(|t| only_marker(t, *d));
+        let want = out.disk[*d].as_deref().and_then(only_marker);
         match probe_of(out, *id) {
             Probe::Present(ms) => {
-                let got: Vec<u32> = ms.iter().filter(|(dd, _)| dd == d).map(|(_, n)| *n).collect();
+                let got: Vec<(usize, u32)> = ms;
                 if got.len() != 1 || Some(got[0]) != want {
                     vs.push(v(
                         format!("{prop}:closed-doc-ignores-disk-change"),
